@@ -287,7 +287,7 @@ func runC05(t *testing.T, seed uint64, planJSON []byte, tier string) (res *Resul
 		plan = genC05(seed, tier)
 		tape = simkit.NewTape(seed)
 	}
-	res.Harness = runBubble(t, func(t *testing.T) {
+	res.Harness = runBubbleP(t, plan, func(t *testing.T) {
 		w := bootRemoting(seed, tape, BootCfg{LoadBalance: "RandomLoadBalance", CommitRetry: 1, RollbackRetry: 1}, simnet.Config{FragmentPct: 10})
 		sim, tc, net := w.Sim, w.TC, w.Net
 		sim.Known = loadKnown("C05")
